@@ -36,31 +36,31 @@ IR_RUNS.update({
                       ("MC", "hier_walk", 12, 40)],
             "thorough": [("MC", "hier11", 4), ("MC", "hier11", 12, 600), ("MC", "hier_edit", 2),
                          ("MC", "hier_edit", 10, 400), ("MC", "hier_walk", 16, 1500)]},
-    "C07": {"quick": [("MC", "clone", 2), ("MC", "clone_edit", 0)],
-            "thorough": [("MC", "clone", 5), ("MC", "clone", 10, 60), ("MC", "clone_edit", 1)]},
-    "C06": {"quick": [("MC", "vlog_read", 2), ("MC", "vlog_read", 10, 14)],
-            "thorough": [("MC", "vlog_read", 3), ("MC", "vlog_read", 12, 300)]},
-    "C04": {"quick": [("MC", "vlog_rt", 2), ("MC", "vlog_rt", 10, 14)],
-            "thorough": [("MC", "vlog_rt", 3), ("MC", "vlog_rt", 12, 300)]},
+    "C07": {"quick": [("MC", "clone", 2), ("MC", "clone_top", 1), ("MC", "clone_edit", 0)],
+            "thorough": [("MC", "clone", 5), ("MC", "clone", 10, 60), ("MC", "clone_top", 3), ("MC", "clone_edit", 1)]},
+    "C06": {"quick": [("MC", "vlog_read", 2), ("MC", "vlog_read", 10, 14), ("MC", "vlog_decl", 0), ("FILES", "vlog_file", 6000)],
+            "thorough": [("MC", "vlog_read", 3), ("MC", "vlog_read", 12, 300), ("MC", "vlog_decl", 0), ("FILES", "vlog_file", 30000)]},
+    "C04": {"quick": [("MC", "vlog_rt", 2), ("MC", "vlog_rt", 10, 14), ("MC", "vlog_decl", 0), ("FILES", "vlog_rt", 6000)],
+            "thorough": [("MC", "vlog_rt", 3), ("MC", "vlog_rt", 12, 300), ("MC", "vlog_decl", 0), ("FILES", "vlog_rt", 30000)]},
     "C15": {"quick": [("MC", "c15_edif", 0), ("MC", "c15_vlog", 0), ("MC", "c15_eblif", 0)],
             "thorough": [("MC", "c15_edif", 0), ("MC", "c15_vlog", 0), ("MC", "c15_eblif", 0)]},
     "C16": {"quick": [("MC", "c16_edif", 2), ("MC", "c16_edif3", 2), ("MC", "c16_vlog", 1), ("MC", "c16_eblif", 2)],
             "thorough": [("MC", "c16_edif", 3), ("MC", "c16_vlog", 2), ("MC", "c16_eblif", 3), ("MC", "c16_edif", 12, 300)]},
     "C18": {"quick": [("MC", "eblif_read", 3), ("MC", "eblif_rt", 2), ("MC", "eblif_latch", 2), ("MC", "eblif_latch_rt", 3),
-                      ("MC", "eblif_read", 10, 14)],
+                      ("MC", "eblif_read", 10, 14), ("FILES", "eblif_file", 9000), ("FILES", "eblif_rt", 9000)],
             "thorough": [("MC", "eblif_read", 4), ("MC", "eblif_rt", 3), ("MC", "eblif_latch", 4), ("MC", "eblif_latch_rt", 4),
-                         ("MC", "eblif_read", 12, 300)]},
-    "C17": {"quick": [("MC", "edif_names", 0)], "thorough": [("MC", "edif_names", 0)]},
-    "C05": {"quick": [("MC", "edif_read", 2), ("MC", "edif_read1", 1), ("MC", "edif_read", 10, 8)],
-            "thorough": [("MC", "edif_read", 3), ("MC", "edif_read1", 3), ("MC", "edif_read", 12, 200)]},
-    "C03": {"quick": [("MC", "edif_rt", 3), ("MC", "edif_rt2", 2), ("MC", "edif_rt", 10, 40)],
-            "thorough": [("MC", "edif_rt", 4), ("MC", "edif_rt1", 4), ("MC", "edif_rt", 12, 1500)]},
+                         ("MC", "eblif_read", 12, 300), ("FILES", "eblif_file", 9000), ("FILES", "eblif_rt", 9000)]},
+    "C17": {"quick": [("MC", "edif_names", 0), ("MC", "edif_reexport", 0)], "thorough": [("MC", "edif_names", 0), ("MC", "edif_reexport", 0)]},
+    "C05": {"quick": [("MC", "edif_read", 2), ("MC", "edif_read1", 1), ("MC", "edif_read", 10, 8), ("MC", "edif_read_br", 1), ("FILES", "edif_file", 12000)],
+            "thorough": [("MC", "edif_read", 3), ("MC", "edif_read1", 3), ("MC", "edif_read", 12, 200), ("MC", "edif_read_br", 2), ("FILES", "edif_file", 40000)]},
+    "C03": {"quick": [("MC", "edif_rt", 3), ("MC", "edif_rt2", 2), ("MC", "edif_rt", 10, 40), ("MC", "edif_rt_br", 1), ("MC", "edif_reexport", 0), ("FILES", "edif_rt", 4000)],
+            "thorough": [("MC", "edif_rt", 4), ("MC", "edif_rt1", 4), ("MC", "edif_rt", 12, 1500), ("MC", "edif_rt_br", 2), ("MC", "edif_reexport", 0), ("FILES", "edif_rt", 40000)]},
     "C20": {"quick": [("MC", "compare", 0)], "thorough": [("MC", "compare", 0)]},
     "C13": {"quick": [("MC", "query", 1)], "thorough": [("MC", "query", 30)]},
-    "C08": {"quick": [("MC", "xf", 3), ("MC", "xf_port", 4), ("MC", "xf", 12, 40)],
-            "thorough": [("MC", "xf", 5), ("MC", "xf_port", 11), ("MC", "xf", 14, 1500)]},
+    "C08": {"quick": [("MC", "xf", 3), ("MC", "xf_port", 4), ("MC", "xf", 12, 40), ("MC", "xf_late", 12, 40)],
+            "thorough": [("MC", "xf", 5), ("MC", "xf_port", 11), ("MC", "xf", 14, 1500), ("MC", "xf_late_port", 4), ("MC", "xf_late", 14, 600)]},
     "C09": {"quick": [("MC", "xf", 2), ("MC", "xf_port", 6), ("MC", "xf", 12, 30)],
-            "thorough": [("MC", "xf", 5), ("MC", "xf_port", 11), ("MC", "xf", 14, 1500)]},
+            "thorough": [("MC", "xf", 5), ("MC", "xf_port", 11), ("MC", "xf", 14, 1500), ("MC", "xf_late", 14, 600)]},
     "C12": {"quick": [("MC", "hier12", 3), ("MC", "hier12", 12, 60)],
             "thorough": [("MC", "hier12", 5), ("MC", "hier12", 14, 1000)]},
 })
@@ -253,6 +253,26 @@ def _detail(sig, clause, rec, header):
     return sig
 
 
+FILE_OPS = {"edif_rt": ("edif", lambda nm: ([{"op": "load_example", "fmt": "edif", "name": nm}], [{"op": "edif_rt", "n": 1}])),
+            "edif_file": ("edif", lambda nm: ([], [{"op": "edif_file_read", "name": nm}])),
+            "vlog_file": ("vlog", lambda nm: ([], [{"op": "file_read", "fmt": "vlog", "name": nm}])),
+            "eblif_file": ("eblif", lambda nm: ([], [{"op": "file_read", "fmt": "eblif", "name": nm}])),
+            "vlog_rt": ("vlog", lambda nm: ([{"op": "load_example", "fmt": "vlog", "name": nm}], [{"op": "vlog_rt", "n": 1}])),
+            "eblif_rt": ("eblif", lambda nm: ([{"op": "load_example", "fmt": "eblif", "name": nm}], [{"op": "eblif_rt", "n": 1}]))}
+
+
+def files_groups(what, maxbytes):
+    """the bundled example files (zip size up to maxbytes) as (history, candidate calls) groups"""
+    import harness
+    fmt, mk = FILE_OPS[what]
+    d, ext = harness.EXAMPLE_DIRS[fmt]
+    out = []
+    for nm in harness.example_names(fmt):
+        if os.path.getsize(harness.example_path(fmt, nm)) <= maxbytes:
+            out.append(mk(nm))
+    return out
+
+
 def ir_history(pid, tier, seed, replay=None, runs=None, strict=True):
     res = Result(pid, tier, seed, "model_checking" if pid != "C14" else "fault_enumeration")
     runs = runs or IR_RUNS[pid][tier if tier in IR_RUNS[pid] else "quick"]
@@ -278,6 +298,11 @@ def ir_history(pid, tier, seed, replay=None, runs=None, strict=True):
                 module, scope, depth = run[:3]
                 if module == "SUITE":
                     jobs.append(("SUITE", scope, 0, None, None, None))
+                    continue
+                if module == "FILES":
+                    groups = files_groups(scope, depth)
+                    cov["exhaustive"] = False
+                    jobs.append(("FILES", scope, depth, {"distinct": len(groups), "states": len(groups), "lookup": []}, [], groups))
                     continue
                 sim = run[3] if len(run) > 3 else None
                 gen, init, groups = irflow.generate(scope, depth, module=module, sim=sim, seed=seed)
@@ -316,7 +341,7 @@ def ir_history(pid, tier, seed, replay=None, runs=None, strict=True):
             for s in stats:
                 res.machinery.extend(s["harness_errors"][:3])
             val = irflow.validate(shards, strict=strict,
-                                  module="Trace" if module in ("MC", "SUITE") else module.replace("MC", "Trace"))
+                                  module="Trace" if module in ("MC", "SUITE", "FILES") else module.replace("MC", "Trace"))
             nd = 0
             for v in val:
                 if v["errors"] or not v["complete"]:
